@@ -90,7 +90,7 @@ def gen(rng, tier):
     n = 12 if tier == "quick" else 300
     cases = []
     for g in range(n):
-        s = G.gen_solvable(rng)
+        s = G.gen_asym_joint(rng) if g % 4 == 3 else G.gen_solvable(rng)
         # loads whose treatment depends on the bar's angle or drawing direction: a global-axis
         # distributed load on some bar, and a concentrated load on a bar end that sits on a support
         b = rng.choice(s.bars)
